@@ -15,14 +15,18 @@ from fjv.common import Report
 
 
 def replay(path: str) -> int:
-    from fjv.llsx import native_replay
-    return native_replay.replay(json.loads(open(path).read()))
+    from fjv.llsx import native_replay, c07_storage
+    case = json.loads(open(path).read())
+    if case.get('storage_kind'):
+        return c07_storage.replay(case)
+    return native_replay.replay(case)
 
 
 def run(report: Report, tier: str, only: Optional[str] = None) -> None:
-    from fjv.llsx import c01_native
-    report.outside += ['mem_decide_storage (the flat-array build and the copy-in of pre-loaded pages) and the bulk load of _run_native: not '
-                       'encoded in this revision', 'FLIPJUMP_FLAT_MAX_WORDS parsing by strtoull', 'more than 2 segments']
+    from fjv.llsx import c01_native, c07_storage
+    report.outside += ['FLIPJUMP_FLAT_MAX_WORDS parsing by strtoull', 'more than 2 segments in the op-step harnesses',
+                       'the Python side of the bulk load (fjm_run._run_native building the add_segment / set_words calls from the Reader)']
     report.assumptions += ['pyspec', 'the representation invariants stated in fjv/llsx/env.py (flat: gap words hold the fill constant; '
                            'pages: in-segment words hold the program word)', 'z3 5.1.0']
     c01_native.run(report, tier, only, prop='C07')
+    c07_storage.run(report, tier, only, prop='C07')
